@@ -57,6 +57,8 @@ type Harness struct {
 	Judge func(o *Obs, x *sched.Exec)
 	// AllowLeak / AllowDeadlock switch the default judgements off for harnesses where they are expected.
 	AllowLeak bool
+	// MaxSteps overrides the per-execution cap on scheduling points (long sequential histories).
+	MaxSteps int
 }
 
 // Stats aggregates a (sub)tree exploration.
@@ -143,6 +145,11 @@ type runResult struct {
 
 func runOnce(h *Harness, prefix []int, trace bool) runResult {
 	o := &Obs{}
+	if h.MaxSteps > 0 {
+		old := sched.MaxSteps
+		sched.MaxSteps = h.MaxSteps
+		defer func() { sched.MaxSteps = old }()
+	}
 	x := sched.Run(prefix, trace, func() { h.Body(o) })
 	if h.Judge != nil {
 		h.Judge(o, x)
